@@ -341,12 +341,47 @@ Proof.
   intros t h t' h' R CR W R'. exact (header_fixed_point h t' h' (read_header_wf t h R CR) W R').
 Qed.
 
-(* the premise is needed: "@CO\tx\r\r\n" reads as the comment "x\r", which is written as
-   "@CO\tx\r\n" and read back as the comment "x" *)
-Theorem header_comment_cr_refuted : exists t h t',
-  read_header t = Some h /\ write_header h = Some t' /\ read_header t' <> Some h.
+(* ---- since /repo 9bfd7d2 the header writer checks comments (co_valid): co_ok follows from
+   write_header succeeding, so the co_no_cr premise above is implied whenever the writer accepts *)
+Theorem write_header_co_ok h t : write_header h = Some t -> Forall co_ok (h_co h).
 Proof.
-  exists [64; 67; 79; 9; 120; 13; 13; 10], (mkHeader None [] [] [] [[120; 13]]), [64; 67; 79; 9; 120; 13; 10].
-  split; [vm_compute; reflexivity|]. split; [vm_compute; reflexivity|]. vm_compute. discriminate.
+  unfold write_header. destruct (write_header_lines h) as [ls|] eqn:EL; [|discriminate]. intros _.
+  unfold write_header_lines in EL.
+  destruct (match h_hd h with None => Some [] | Some m => option_map (fun l => [l]) (write_hd m) end); [|discriminate].
+  destruct (write_all write_sq (h_sq h)); [|discriminate].
+  destruct (write_all (write_idmap 82 71) (h_rg h)); [|discriminate].
+  destruct (write_all (write_idmap 80 71) (h_pg h)); [|discriminate].
+  destruct (write_all write_co_chk (h_co h)) as [le|] eqn:EE; [|discriminate].
+  exact (proj2 (write_co_chk_all _ _ EE)).
 Qed.
 
+Lemma written_co_no_cr h t : write_header h = Some t -> co_no_cr h.
+Proof.
+  intro W. unfold co_no_cr. eapply Forall_impl; [|exact (write_header_co_ok h t W)].
+  intros c [_ H]. exact H.
+Qed.
+
+Theorem header_parse_write_parse_w : forall t h t',
+  read_header t = Some h -> write_header h = Some t' -> read_header t' = Some h.
+Proof. intros t h t' R W. exact (header_parse_write_parse t h t' R (written_co_no_cr h t' W) W). Qed.
+
+Theorem header_parse_write_fixed_w : forall t h t' h',
+  read_header t = Some h -> write_header h = Some t' ->
+  read_header t' = Some h' -> write_header h' = Some t'.
+Proof. intros t h t' h' R W R'. exact (header_parse_write_fixed t h t' h' R (written_co_no_cr h t' W) W R'). Qed.
+
+(* a header with a comment that is not one line is REJECTED by the writer *)
+Theorem header_comment_rejected h : ~ Forall co_ok (h_co h) -> write_header h = None.
+Proof.
+  intro N. destruct (write_header h) as [t|] eqn:W; [|reflexivity].
+  exfalso. exact (N (write_header_co_ok h t W)).
+Qed.
+
+(* witness: "@CO\tx\r\r\n" is accepted by the reader as the comment "x\r"; before 9bfd7d2 it was
+   written as "@CO\tx\r\n" and read back as "x", now the writer refuses it *)
+Example header_comment_cr_rejected : exists t h,
+  read_header t = Some h /\ h_co h = [[120; 13]] /\ write_header h = None.
+Proof.
+  exists [64; 67; 79; 9; 120; 13; 13; 10], (mkHeader None [] [] [] [[120; 13]]).
+  split; [vm_compute; reflexivity|]. split; vm_compute; reflexivity.
+Qed.
